@@ -1,0 +1,93 @@
+//go:build verif
+
+// Contracts for the client side of a call (proxy construction, GetMetaObject, proxy.CallID/Call/Call2,
+// Params / Response), checked by /verif/govc. Comments only; build tag verif.
+
+package bus
+
+// A proxy is bound, for its whole life, to the client (connection), service id and object id it
+// was built with (C19: all proxies of an endpoint share the pooled connection they were given;
+// C04: a call goes to the service / object the proxy names).
+//@ func NewProxy(client Client, meta object.MetaObject, service uint32, object uint32) (result Proxy)
+//@   tags C19 C04
+//@   pure
+//@   ensures[C19,C04] typeis(result, proxy) && unbox(result, proxy).client == client && unbox(result, proxy).service == service && unbox(result, proxy).object == object
+//@   loop 1:
+//@     invariant methods != nil
+//@ func MakeObject(proxy Proxy) (result ObjectProxy)
+//@   tags C19
+//@   pure
+//@   ensures[C19] result != nil
+
+// GetMetaObject: one call on the given client to (serviceID, objectID, action 2) whose payload is
+// the 4-byte image of objectID; a reply that does not decode as a meta-object is an error (C08);
+// the connection is not closed.
+//@ func GetMetaObject(client Client, serviceID uint32, objectID uint32) (m object.MetaObject, err error)
+//@   tags C04 C08 C19
+//@   requires client != nil
+//@   modifies everything
+//@   call Call#1: assert[C04,C19] arg1 == serviceID && arg2 == objectID && arg3 == 2 && len(arg4) == 4 && le32(arg4, 0) == objectID
+//@   call NewBuffer#1: assert[C04,C08] arg0 == response
+//@   call ReadMetaObject#1: assert[C08] ref(arg0) == ref(ret)
+//@   call ReadMetaObject#1: ghost_after client.decfail := result1 != nil
+//@   ensures[C08] client.decfail ==> err != nil
+//@   call Close#1: assert[C19] false
+
+// ---- Params / Response: the argument tuple and the result slot of a generated proxy method.
+// Params.Write hands every argument, in order, each exactly once, to the encoder (so the payload
+// is the concatenation of the arguments' encodings: the tuple layout of C03) and stops with the
+// error of the first argument that fails; Response.Read decodes into the caller's slot and returns
+// the decoder's error unchanged (C08).
+//@ ghostfield nenc int
+//@ func (p *Params) Write(e encoding.Encoder) (err error)
+//@   tags C03 C04
+//@   requires e != nil
+//@   modifies allof(len), allof(writes), allof(data), allof(wfailed), p.nenc
+//@   ensures[C03] forall ww io.Writer {ww.wfailed} :: (ww.wfailed ==> err != nil || old(ww.wfailed)) && (old(ww.wfailed) ==> ww.wfailed)
+//@   ensures forall ww io.Writer {ww.len} :: ww.len >= old(ww.len)
+//@   ensures forall ww io.Writer, j int {ww.data[j]} :: j < old(ww.len) ==> ww.data[j] == old(ww.data[j])
+//@   ensures[C03,C04] err == nil ==> p.nenc == old(p.nenc) + len(p.args)
+//@   call Encode#1: assert[C03,C04] rangeindex >= 0 && rangeindex < len(p.args) && arg0 == p.args[rangeindex] && p.nenc == old(p.nenc) + rangeindex
+//@   call Encode#1: ghost_after p.nenc := p.nenc + 1
+//@   loop 1:
+//@     invariant p.nenc == old(p.nenc) + rangeindex + 1
+//@     invariant forall ww io.Writer {ww.wfailed} :: (ww.wfailed ==> old(ww.wfailed)) && (old(ww.wfailed) ==> ww.wfailed)
+//@     invariant forall ww io.Writer {ww.len} :: ww.len >= old(ww.len)
+//@     invariant forall ww io.Writer, j int {ww.data[j]} :: j < old(ww.len) ==> ww.data[j] == old(ww.data[j])
+//@ func (o *Response) Read(d encoding.Decoder) (err error)
+//@   tags C03 C08
+//@   requires d != nil
+//@   modifies everything
+//@   ensures[C08] forall rr io.Reader {rr.short} :: (rr.short ==> err != nil || old(rr.short)) && (old(rr.short) ==> rr.short)
+//@   call Decode#1: assert[C03,C08] arg0 == o.resp
+
+// ---- proxy: CallID sends to the service / object the proxy names, on the proxy's own client;
+// Call refuses a method whose return signature differs without sending anything.
+//@ func (p proxy) CallID(actionID uint32, payload []byte) (result []byte, err error)
+//@   tags C04 C19
+//@   requires p.client != nil && p.ctx != nil
+//@   modifies everything
+//@   call Call#1: assert[C04,C19] recv == p.client && arg1 == p.service && arg2 == p.object && arg3 == actionID && arg4 == payload
+//@   call Close#1: assert[C19] false
+//@ func (p proxy) Call(method string, param string, ret string, payload []byte) (result []byte, err error)
+//@   tags C04
+//@   requires p.client != nil && p.ctx != nil
+//@   modifies everything
+//@   call CallID#1: assert[C04] arg0 == id && arg1 == payload && ret == sig
+
+// Call2 (every generated proxy method goes through it): the method id comes from the proxy's own
+// meta-object for the name and parameter signature given; nothing is sent when the arguments cannot
+// be encoded; exactly the encoded arguments are sent, once, through CallID; the bytes decoded are
+// the reply of this very call; and a reply that cannot be decoded into the result (truncated,
+// C08) makes the call fail instead of returning a partly filled result.
+//@ func (p proxy) Call2(method string, args Params, ret Response) (err error)
+//@   tags C03 C04 C08
+//@   requires p.client != nil && p.ctx != nil
+//@   modifies everything
+//@   call MethodID#1: assert[C04] arg0 == method && arg1 == args.sig
+//@   call CallID#1: assert[C04] arg0 == methodID && len(arg1) == buf.len - buf.pos
+//@   call NewBuffer#1: assert[C04,C08] arg0 == res
+//@   call Read#1: ghost_after p.client.decfail := result0 != nil
+//@   call DecodeFrom#1: ghost_after p.client.decfail := result0 != nil
+//@   ensures[C08] p.client.decfail ==> err != nil
+//@   call Close#1: assert false
